@@ -323,6 +323,179 @@ def multi_session(case, tok, n):
     return problems
 
 
+# ------------------------------------------------------------------ wave 3: sequences of REST /run requests on ONE server
+def fb_factory(case, created, cur=None):
+    """feedback family: c (rate), f = max(0, s*c), s' = f, k = s*b + c — the values depend on dt.
+    cur = (c, start, stop, dt): the model built DIRECTLY with these values (the property's right-hand side)"""
+    c0, start, stop, dt = cur if cur is not None else (case["c0"], case["start"], case["stop"], case["dt"])
+    def factory():
+        from BPTK_Py import Model, bptk
+        m = Model(starttime=start, stoptime=stop, dt=dt, name="c09fb")
+        c = m.constant("c"); f = m.flow("f"); s = m.stock("s"); k = m.converter("k")
+        c.equation = c0; f.equation = s * c; s.initial_value = case["s0"]; s.equation = f; k.equation = s * case["b"] + c
+        bp = bptk()
+        bp.register_scenario_manager({SM: {"model": m}})
+        bp.register_scenarios(scenarios={SC: {"constants": {"c": c0}}}, scenario_manager=SM)
+        created.append(bp)
+        return bp
+    return factory
+
+
+def canon_run(j, eqs):
+    d = j[SM][SC]["equations"]
+    return ";".join("%d=" % e + ",".join("%s:%s" % (fbits(float(t)), fbits(v)) for t, v in d[EQN[e]].items()) for e in eqs)
+
+
+def req_settings(r):
+    if r is None:
+        return None
+    st = {}
+    if r.get("c") is not None:
+        st["constants"] = {"c": r["c"]}
+    rs = {k2: r[k1] for k1, k2 in (("start", "starttime"), ("stop", "stoptime"), ("dt", "dt")) if r.get(k1) is not None}
+    if rs:
+        st["runspecs"] = rs
+    return {SM: {SC: st}}
+
+
+def cumulative(case):
+    cur, out = [case["c0"], case["start"], case["stop"], case["dt"]], []
+    for r in case["reqs"]:
+        if r is not None:
+            for i, k in enumerate(("c", "start", "stop", "dt")):
+                if r.get(k) is not None:
+                    cur[i] = r[k]
+        out.append(tuple(cur))
+    return out
+
+
+def fb_closed_form(case, cur):
+    c, start, stop, dt = cur
+    n = int(round((stop - start) / dt))
+    rows, s = {e: [] for e in case["eqs"]}, case["s0"]
+    for k in range(n + 1):
+        t, f = start + k * dt, max(0, s * c)
+        vals = {0: c, 1: f, 2: s, 3: s * case["b"] + c}
+        for e in case["eqs"]:
+            rows[e].append("%s:%s" % (fbits(t), fbits(vals[e])))
+        s = s + dt * f
+    return ";".join("%d=" % e + ",".join(rows[e]) for e in case["eqs"])
+
+
+def run_sequence(case, facts):
+    """one server, a sequence of POST /run requests (without settings / run specs only / constants / both); every reply against the
+    batch run of a freshly built model with the accumulated values, the closed form, the driver, and — for the last request — the sessions"""
+    from BPTK_Py.server import BptkServer
+    eqs, names = case["eqs"], [EQN[e] for e in case["eqs"]]
+    created, replies, fresh, problems = [], [], [], []
+    curs = cumulative(case)
+    try:
+        cl = BptkServer(__name__, fb_factory(case, created)).test_client()
+        for r in case["reqs"]:
+            body = {"scenario_managers": [SM], "scenarios": [SC], "equations": names}
+            if r is not None:
+                body["settings"] = req_settings(r)
+            resp = cl.post("/run", json=body)
+            replies.append(canon_run(json.loads(resp.data), eqs) if resp.status_code == 200 else "http%d" % resp.status_code)
+        for cur in curs:
+            d = fb_factory(case, created, cur)().run_scenarios(scenarios=[SC], scenario_managers=[SM], equations=names, return_format="dict", series_names={})
+            fresh.append(canon_run(d, eqs))
+        # the sessions on a model built directly with the last request's values
+        cur = curs[-1]
+        bp = fb_factory(case, created, cur)()
+        bp.begin_session(scenarios=[SC], scenario_managers=[SM], equations=names)
+        sess = {e: [] for e in eqs}
+        guard = 0
+        while bp.session_state["step"] <= bp.session_state["stoptime"] and guard < 1000:
+            r = bp.run_step(); guard += 1
+            for e in eqs:
+                for t, v in r[SM][SC][EQN[e]].items():
+                    sess[e].append("%s:%s" % (fbits(float(t)), fbits(v)))
+        bp.end_session()
+        sess = ";".join("%d=" % e + ",".join(sess[e]) for e in eqs)
+        cl2 = BptkServer(__name__, fb_factory(case, created, cur)).test_client()
+        iid = json.loads(cl2.post("/start-instance", json={}).data)["instance_uuid"]
+        cl2.post("/%s/begin-session" % iid, json={"scenario_managers": [SM], "scenarios": [SC], "equations": names})
+        rows = [_keys(x) for x in json.loads(cl2.post("/%s/stream-steps" % iid, json={"settings": {}}).get_data(as_text=True))]
+        rsess = ";".join("%d=" % e + ",".join("%s:%s" % (fbits(float(t)), fbits(v)) for x in rows for t, v in x[SM][SC][EQN[e]].items()) for e in eqs)
+    finally:
+        for b in created:
+            b.destroy()
+    def first_diff(a, b):
+        for ea, eb in zip(a.split(";"), b.split(";")):
+            if ea != eb:
+                xa, xb = ea.split("=")[1].split(","), eb.split("=")[1].split(",")
+                i = next((i for i, (x, y) in enumerate(zip(xa, xb)) if x != y), min(len(xa), len(xb)))
+                show = lambda x: None if x is None else "%s(%r) = %r" % (EQN[int(ea.split("=")[0])], from_fbits(x.split(":")[0]), from_fbits(x.split(":")[1]))
+                return "%s, fresh model: %s" % (show(xa[i] if i < len(xa) else None), show(xb[i] if i < len(xb) else None))
+        return "?"
+    for i, (got, want, cur) in enumerate(zip(replies, fresh, curs)):
+        if got != want:
+            problems.append(("run-after-run-stale", "request %d of the sequence (%s; accumulated c=%r start=%r stop=%r dt=%r): REST /run reports %s"
+                             % (i, "no settings" if case["reqs"][i] is None else req_settings(case["reqs"][i])[SM][SC], cur[0], cur[1], cur[2], cur[3], first_diff(got, want)),
+                             {"request": i, "reply": got, "fresh_batch": want}))
+            break
+    for i, (want, cur) in enumerate(zip(fresh, curs)):
+        if want != fb_closed_form(case, cur):
+            problems.append(("channels-disagree", "batch run of the directly built feedback model differs from the closed-form Euler values (request %d)" % i,
+                             {"batch": want, "closed_form": fb_closed_form(case, cur)}))
+            break
+    if not (sess == rsess == fresh[-1]):
+        problems.append(("channels-disagree", "feedback family: Python session / REST stream-steps / batch run of the directly built model differ",
+                         {"session": sess, "rest_session": rsess, "batch": fresh[-1]}))
+    h = lambda x: "-" if x is None else fbits(x)
+    req = ["rbegin %s %s %s %s %s %s %s" % (fbits(case["b"]), fbits(case["s0"]), fbits(case["c0"]), fbits(case["start"]), fbits(case["stop"]), fbits(case["dt"]),
+                                           ",".join(map(str, eqs)))]
+    exp = ["ok"]
+    for r, rep in zip(case["reqs"], replies):
+        req.append("rrun none" if r is None else "rrun %s %s %s %s" % (h(r.get("c")), h(r.get("start")), h(r.get("stop")), h(r.get("dt"))))
+        exp.append(rep)
+    return req, exp, problems
+
+
+def gen_run_sequence(rng):
+    start = rng.choice([0.0, 1.0])
+    case = {"b": rng.choice([1.0, 3.0, 0.25]), "s0": rng.choice([100.0, 1.0, 2.5]), "c0": rng.choice([0.1, 0.25, 0.5, 1.0]),
+            "start": start, "dt": rng.choice([1.0, 0.5, 0.25]), "stop": start + rng.choice([2.0, 3.0, 4.0]), "eqs": rng.choice(EQSETS), "reqs": []}
+    def runspecs():
+        r = {}
+        if rng.chance(2, 3): r["dt"] = rng.choice([1.0, 0.5, 0.25])
+        if rng.chance(1, 3): r["start"] = rng.choice([0.0, 1.0, 2.0])
+        if rng.chance(1, 3): r["stop"] = rng.choice([3.0, 4.0, 5.0, 6.0])
+        return r or {"dt": rng.choice([0.5, 0.25])}
+    for _ in range(rng.range(2, 5)):
+        k = rng.below(10)
+        if k < 2:
+            case["reqs"].append(None)                                   # no settings entry at all
+        elif k < 6:
+            case["reqs"].append(runspecs())                             # settings carry ONLY run specs
+        elif k < 8:
+            case["reqs"].append({"c": rng.choice([0.1, 0.2, 0.75, 0.0])})   # constants only
+        else:
+            case["reqs"].append(dict(runspecs(), c=rng.choice([0.1, 0.3, 0.5])))
+    return case
+
+
+FIXED_SEQUENCES = [
+    # the seeded scenario: growth model, /run with its own run specs, then /run whose settings carry only {dt: 0.5}
+    {"b": 1.0, "s0": 100.0, "c0": 0.1, "start": 0.0, "dt": 1.0, "stop": 4.0, "eqs": [2, 1, 0], "reqs": [None, {"dt": 0.5}]},
+    {"b": 1.0, "s0": 100.0, "c0": 0.1, "start": 0.0, "dt": 1.0, "stop": 4.0, "eqs": [2], "reqs": [{"stop": 3.0}, {"start": 1.0}, {"dt": 0.25}, {"c": 0.5}, None]},
+    {"b": 3.0, "s0": 1.0, "c0": 0.5, "start": 1.0, "dt": 0.5, "stop": 3.0, "eqs": [3, 1], "reqs": [{"c": 0.25}, {"dt": 1.0, "start": 0.0}, {"dt": 0.25, "c": 1.0}, {"stop": 5.0}]},
+]
+
+
+def seq_show(case):
+    return {k: case[k] for k in ("b", "s0", "c0", "start", "stop", "dt")} | {"equations": [EQN[e] for e in case["eqs"]],
+            "run_requests": ["no settings" if r is None else req_settings(r)[SM][SC] for r in case["reqs"]]}
+
+
+def probe_run_resets():
+    try:
+        return not run_sequence(FIXED_SEQUENCES[0], None)[2]
+    except Exception:
+        return False
+
+
 # ------------------------------------------------------------------ probes
 def probe_case(dt, n, eqs, calls, start=0.0):
     return {"a": 1.0, "b": 1.0, "s0": 0.0, "c0": 1.0, "start": start, "dt": dt, "stop": start + n * dt if dt != 0.1 else round(start + n * dt, 10),
@@ -383,17 +556,19 @@ def probe_finalises_lookback():
 
 def probe_all():
     state = probe_finalises()
-    return {"dt": probe_session_dt(), "clock": probe_clock(), "final": state and probe_finalises_lookback(), "state": state}
+    return {"dt": probe_session_dt(), "clock": probe_clock(), "final": state and probe_finalises_lookback(), "state": state,
+            "run": probe_run_resets()}
 
 
 def gen_lean(f):
     b = lambda x: "true" if x else "false"
     cfg = (f"def cfg : Cfg := {{ sessionDtFromScenario := {b(f['dt'])}, stepClockNormalised := {b(f['clock'])}, "
-           f"stepFinalisesAll := {b(f['final'])}, stepFinalisesState := {b(f['state'])} }}\n")
-    if f["dt"] and f["clock"] and f["final"]:
+           f"stepFinalisesAll := {b(f['final'])}, stepFinalisesState := {b(f['state'])}, runResetsOnAnySettings := {b(f['run'])} }}\n")
+    if f["dt"] and f["clock"] and f["final"] and f["run"]:
         body = "theorem holds : C09_full cfg := C09_full_of_good cfg (by decide)\n#print axioms holds\n"
     else:
         thm = ("C09_witness_session_dt cfg (by decide)" if not f["dt"] else "C09_witness_clock cfg (by decide)" if not f["clock"] else
+               "C09_witness_run_runspecs_only cfg (by decide)" if f["final"] else
                "C09_witness_state_only cfg (by decide) (by decide)" if f["state"] else "C09_witness_settings_leak cfg (by decide)")
         body = (f"theorem violated : ¬ C09_full cfg := {thm}\n#print axioms violated\n"
                 "#print axioms partition_invariance\n#print axioms formats_agree\n#print axioms C09_partial_all_requested\n")
@@ -620,7 +795,7 @@ def run(chk):
                        "the look-back `delay(g, 2*dt)` is rendered in C08's expression language as two one-step delays (auxiliary g1 = delay(g, dt)); values coincide"]
     rng = chk.rng.fork("c09")
     cases = fixed_cases() + [gen_case(rng) for _ in range(220 if chk.quick else 3000)]
-    req, exp, owner = ["cfg %d %d %d %d" % (facts["dt"], facts["clock"], facts["final"], facts["state"])], ["ok"], [None]
+    req, exp, owner = ["cfg %d %d %d %d %d" % (facts["dt"], facts["clock"], facts["final"], facts["state"], facts["run"])], ["ok"], [None]
     found, skipped, dist = {}, 0, {"dt": {}, "calls": {}, "eqsets": {}}
     for idx, case in enumerate(cases):
         try:
@@ -641,6 +816,22 @@ def run(chk):
                  sample=case_show(case) if idx % 17 == 3 else None)
         for key, text, detail in problems:
             found.setdefault(key, (case, text, detail))
+    # ---- wave 3: sequences of /run requests on one server (feedback family)
+    seqs = [dict(c) for c in FIXED_SEQUENCES] + [gen_run_sequence(rng.fork("runseq%d" % i)) for i in range(40 if chk.quick else 400)]
+    seq_found, kinds = {}, {"no settings": 0, "runspecs only": 0, "constants only": 0, "both": 0}
+    for sc_ in seqs:
+        try:
+            r, e, problems = run_sequence(sc_, facts)
+        except Exception as ex:  # noqa
+            r, e, problems = [], [], [("channel-error", "%s: %s" % (type(ex).__name__, ex), {})]
+        for q in sc_["reqs"]:
+            kinds["no settings" if q is None else "both" if (q.get("c") is not None and len(q) > 1) else "constants only" if q.get("c") is not None else "runspecs only"] += 1
+        if facts["run"]:                      # the driver's simulator is memo-transparent: comparable on the good branch only
+            req += r; exp += e; owner += [None] * len(r)
+        chk.case(json.dumps(seq_show(sc_), sort_keys=True), nontrivial=True, sample=seq_show(sc_) if len(seq_found) == 0 and len(sc_["reqs"]) == 4 else None)
+        for key, text, detail in problems:
+            seq_found.setdefault(key, (sc_, text, detail))
+    dist["run_sequences"] = {"sequences": len(seqs), "requests": kinds}
     chk.cov["input_distribution"] = dist
     chk.cov["skipped_run_specs_hit_by_C05_until_plus_dt"] = skipped
     chk.notes["sim_bound_exact (C05)"] = SIM_BOUND_OK
@@ -675,6 +866,24 @@ def run(chk):
             except BaseException:
                 small = case
         chk.add_finding(key, f"{texts.get(key, key)}: {case_show(small)}: {text}", {"case": small, "key": key, "detail": detail})
+    for key, (sc_, text, detail) in seq_found.items():
+        small = dict(sc_)
+        changed = True
+        while changed and key != "channel-error":          # shrink: drop requests while the same class still shows
+            changed = False
+            for i in range(len(small["reqs"])):
+                cand = dict(small, reqs=small["reqs"][:i] + small["reqs"][i + 1:])
+                try:
+                    pr = [p for p in run_sequence(cand, facts)[2] if p[0] == key] if cand["reqs"] else []
+                except Exception:  # noqa
+                    pr = []
+                if pr:
+                    small, text, detail, changed = cand, pr[0][1], pr[0][2], True
+                    break
+        chk.add_finding(key, f"one server, sequence of POST /run requests {seq_show(small)}: {text}", {"sequence": small, "key": key, "detail": detail})
+    if not facts["run"] and "run-after-run-stale" not in seq_found:
+        chk.add_finding("run-after-run-stale", "probe: a /run whose settings carry only run specs is answered from the memo of the earlier /run",
+                        {"sequence": FIXED_SEQUENCES[0], "key": "run-after-run-stale"})
     for fact, key in (("dt", "session-dt-ignored"), ("clock", "session-clock-drift"), ("final", "settings-leak-one-step-back")):
         if not facts[fact] and key not in found:
             pc = {"dt": probe_case(0.5, 4, [2], [("stream", None)]), "clock": probe_case(0.1, 10, [2], [("stream", None)]),
@@ -683,7 +892,7 @@ def run(chk):
     if not ok:
         chk.add_finding("obligation", f"proof obligations of C09 no longer check: {why}",
                         {"theorem": "Bptk.C09.Gen.holds / Bptk.Props.C09", "detail": why}, found_input=False)
-    if diff is not None and not found:
+    if diff is not None and not found and not seq_found:
         ci = owner[diff] if diff < len(owner) else None
         chk.add_finding("correspondence", f"model and implementation disagree at protocol line {diff}: request {req[diff] if diff < len(req) else None!r}",
                         {"correspondence": "Drive/C09 vs run_scenarios / session API / REST", "line": diff,
@@ -695,6 +904,12 @@ def run(chk):
 def replay(path):
     quiet_bptk_logging()
     r = json.load(open(path))["replay"]
+    if "sequence" in r:
+        print("sequence of /run requests on one server:", seq_show(r["sequence"]))
+        problems = run_sequence(r["sequence"], None)[2]
+        for p in problems:
+            print("problem on the current tree:", p[0], "-", p[1])
+        return 1 if problems else 0
     if "case" not in r:
         print("replay names a proof obligation / correspondence stream:", r)
         return 1
